@@ -269,7 +269,7 @@ Qed.
 
 Theorem lpf_hull_refuted_binary64 :
   exists alpha o x : R,
-    0 <= alpha <= 1 /\ rnd64 alpha = alpha /\ rnd64 o = o /\ rnd64 x = x /    Rmax o x < lpf_iter (Rnd_ops rnd64) alpha o x.
+    0 <= alpha <= 1 /\ rnd64 alpha = alpha /\ rnd64 o = o /\ rnd64 x = x /\ Rmax o x < lpf_iter (Rnd_ops rnd64) alpha o x.
 Proof.
   exists a64, 13, 13.
   split; [unfold a64; lra|]. split; [exact rnd64_a64|]. split; [exact rnd64_13|]. split; [exact rnd64_13|].
@@ -354,6 +354,15 @@ Section StdModel.
     { apply Rabs_le. pose proof (Rabs_le_inv _ _ Hl). pose proof (Rabs_le_inv _ _ Hh). lra. }
     pose proof (r_lpf_error alpha o x A Ha Bo Bx) as E. apply Rabs_le_inv in E.
     pose proof (lpf_convex_step alpha o x lo hi Ha Ho Hx). lra.
+  Qed.
+
+  Theorem r_lpf_error_and_hull alpha o x lo hi A : 0 <= alpha <= 1 ->
+    lo <= o <= hi -> lo <= x <= hi -> Rabs lo <= A -> Rabs hi <= A ->
+    Rabs (lpf_iter (Rnd_ops rnd) alpha o x - lpf_iter R_ops alpha o x) <= lpf_B eps eta A /\
+    lo - lpf_B eps eta A <= lpf_iter (Rnd_ops rnd) alpha o x <= hi + lpf_B eps eta A.
+  Proof.
+    intros Ha Ho Hx Hl Hh. split; [|apply r_lpf_hull_enlarged; assumption].
+    apply r_lpf_error; [exact Ha| |]; apply Rabs_le; pose proof (Rabs_le_inv _ _ Hl); pose proof (Rabs_le_inv _ _ Hh); lra.
   Qed.
 End StdModel.
 
